@@ -135,6 +135,12 @@ const (
 
 // do sends one request; the child is restarted when it died or hung.
 func (s *supervisor) do(req request) (rep reply, status string, detail string) {
+	return s.doWithin(req, 2*time.Second, 4*time.Second)
+}
+
+// doWithin: the call itself must take at most `limit` (measured in the child)
+// and the answer must arrive within `wait`.
+func (s *supervisor) doWithin(req request, limit, wait time.Duration) (rep reply, status string, detail string) {
 	if s.cmd == nil {
 		s.start()
 	}
@@ -156,7 +162,7 @@ func (s *supervisor) do(req request) (rep reply, status string, detail string) {
 	select {
 	case r := <-ch:
 		if r.err == nil {
-			if r.rep.Nanos > int64(2*time.Second) {
+			if r.rep.Nanos > int64(limit) {
 				return r.rep, stTimeout, fmt.Sprintf("answered after %d ms", r.rep.Nanos/1e6)
 			}
 			return r.rep, stReply, ""
@@ -169,9 +175,9 @@ func (s *supervisor) do(req request) (rep reply, status string, detail string) {
 			return reply{}, stCrashOO, firstLines(tail, 2)
 		}
 		return reply{}, stCrash, firstLines(tail, 4)
-	case <-time.After(4 * time.Second):
+	case <-time.After(wait):
 		s.stop()
-		return reply{}, stTimeout, "no answer within 4 s, child killed"
+		return reply{}, stTimeout, fmt.Sprintf("no answer within %v, child killed", wait)
 	}
 }
 
@@ -181,6 +187,26 @@ func firstLines(s string, n int) string {
 		l = l[:n]
 	}
 	return strings.Join(l, " | ")
+}
+
+// call = do, except that the first time-out of a decoder is confirmed with ten
+// times the deadline (20 s for the call, 40 s for the answer): a box under
+// memory pressure from other jobs can take seconds to hand a child the 2 GiB
+// a hostile length field asks for, and that must not be reported as a hang.
+// A decoder that really loops fails the confirmation too; later time-outs of
+// the same decoder are then taken at face value.
+func (h *H) call(req request) (rep reply, status string, detail string) {
+	rep, status, detail = h.sup.do(req)
+	if status != stTimeout || h.hangs[req.Dec] {
+		return
+	}
+	h.retried++
+	rep2, status2, detail2 := h.sup.doWithin(req, 20*time.Second, 40*time.Second)
+	if status2 == stTimeout {
+		h.hangs[req.Dec] = true
+		return rep2, status2, detail + "; confirmed: " + detail2
+	}
+	return rep2, status2, detail2
 }
 
 // ---------------------------------------------------------------- known findings
@@ -252,6 +278,8 @@ type H struct {
 	maxAlloc    map[string]uint64
 	skipped     int
 	seconds     map[string]float64
+	hangs       map[int]bool
+	retried     int
 }
 
 func hexTrunc(b []byte) interface{} {
@@ -340,7 +368,7 @@ func (h *H) one(kind string, req request, recipe string) {
 		pre1, pre2 = sp.Extra1, sp.Extra2
 	}
 	t0 := time.Now()
-	rep, status, detail := h.sup.do(req)
+	rep, status, detail := h.call(req)
 	h.seconds[decoderNames[req.Dec]] += time.Since(t0).Seconds()
 	if status == stReply && rep.Class == clsSkip {
 		h.skipped++
@@ -451,7 +479,7 @@ func (h *H) run(kind string, dec int, aux []int64, in1, in2 []byte, recipe strin
 
 // probe runs a fixed witness of a known finding and reports whether it still reproduces.
 func (h *H) probe(id string, req request, wantClass string, what string) {
-	rep, status, _ := h.sup.do(req)
+	rep, status, _ := h.call(req)
 	got := ""
 	switch {
 	case status == stCrashOO:
@@ -797,7 +825,7 @@ func main() {
 		panic(err)
 	}
 	defer os.RemoveAll(wd)
-	h := &H{c: c, sup: &supervisor{workdir: wd}, classes: map[string]int{}, known: map[string]int{}, maxAlloc: map[string]uint64{}, seconds: map[string]float64{}}
+	h := &H{c: c, sup: &supervisor{workdir: wd}, classes: map[string]int{}, known: map[string]int{}, maxAlloc: map[string]uint64{}, seconds: map[string]float64{}, hangs: map[int]bool{}}
 	defer h.sup.stop()
 	h.maxModelLen = c.Scale(6000, 70000)
 	q := func(a, b int) int { return c.Scale(a, b) }
@@ -1293,10 +1321,11 @@ func main() {
 	c.Rep.Extra["max_alloc_per_decoder"] = h.maxAlloc
 	c.Rep.Extra["child_restarts"] = h.sup.starts - 1
 	c.Rep.Extra["not_reached"] = h.skipped
+	c.Rep.Extra["timeouts_not_confirmed"] = h.retried - len(h.hangs)
 	c.Rep.Extra["seconds_per_decoder"] = h.seconds
 	c.Rep.Notes = append(c.Rep.Notes,
 		"decoders 1..19 are modelled (Coq case per call up to "+fmt.Sprint(h.maxModelLen)+" input bytes); tools.ParseACM, UnmarshalYAML, registers.New, CalcImageOffset/GetRegion, tpmeventlog.Parse and the third-party parsers behind them (fiano, go-attestation, yaml, json, pem/x509, aes-gcm) are fuzzed with the oracle only",
-		"each call runs in a child process with RLIMIT_AS = 4 GiB and a 2 s deadline; allocation = runtime.MemStats.TotalAlloc delta around the call")
+		"each call runs in a child process with RLIMIT_AS = 4 GiB and a 2 s deadline (the first time-out of a decoder is confirmed with a 20 s deadline before it counts); allocation = runtime.MemStats.TotalAlloc delta around the call")
 	c.Finish("model and implementation agree on every call: same outcome class (value/error/panic/out-of-memory), same decoded value (flattened field by field), " +
 		"and model allocation <= observed allocation <= 4 x model + 1 KiB/input byte + 4 MiB; inputs = every valid sample shipped in the repository per decoder, " +
 		"their truncations (every length or a stride plus field boundaries), single bit flips, 16/32-bit little-endian length-field overwrites " +
